@@ -3,7 +3,9 @@ package pmc
 import (
 	"bytes"
 	"fmt"
+	"os"
 	"sort"
+	"strings"
 	"sync"
 	"sync/atomic"
 
@@ -386,8 +388,8 @@ func (e *Engine) Alphabet() []int {
 			for k := range proofs {
 				ps := &proofs[k]
 				base := proofT{Present: true,
-					PP: brefT{protocol.LEAN_HELIX_PREPREPARE, kit.Instance, H, primitives.View(ps.view), hexb(ps.hash)},
-					P:  brefT{protocol.LEAN_HELIX_PREPARE, kit.Instance, H, primitives.View(ps.view), hexb(ps.hash)},
+					PP:       brefT{protocol.LEAN_HELIX_PREPREPARE, kit.Instance, H, primitives.View(ps.view), hexb(ps.hash)},
+					P:        brefT{protocol.LEAN_HELIX_PREPARE, kit.Instance, H, primitives.View(ps.view), hexb(ps.hash)},
 					PPSender: signerT{ID: ps.ppm.Content().Sender().MemberId(), Mode: "replay", Sig: ps.ppm.Content().Sender().Signature()}}
 				for _, p := range ps.preps {
 					base.PSenders = append(base.PSenders, signerT{ID: p.Content().Sender().MemberId(), Mode: "replay", Sig: p.Content().Sender().Signature()})
@@ -623,35 +625,41 @@ func (e *Engine) nvVariants(b primitives.MemberId, v uint64, proofs []proofSrc, 
 			mk(tag+"-fresh", votes, V, ppA, me, me, blkA)
 		}
 		if tag == "quorum" {
+			// single-fault mutants keep everything else valid: the proposal is the one this vote set forces (the block of the
+			// highest proof if a vote carries one, else the fresh block), so that the mutated part is the ONLY reason to reject
+			gpp, gblk := ppA, interfaces.Block(blkA)
+			if best != nil {
+				gpp, gblk = brefT{protocol.LEAN_HELIX_PREPREPARE, kit.Instance, H, V, best.Proof.PP.Hash}, bestBlk
+			}
 			// duplicate / dropped / re-attributed votes
-			mk("duplicate-vote", append(append([]voteT{}, votes...), votes[len(votes)-1]), V, ppA, me, me, blkA)
-			mk("dropped-vote-padded-with-duplicate", append(append([]voteT{}, votes[:len(votes)-1]...), votes[0]), V, ppA, me, me, blkA)
+			mk("duplicate-vote", append(append([]voteT{}, votes...), votes[len(votes)-1]), V, gpp, me, me, gblk)
+			mk("dropped-vote-padded-with-duplicate", append(append([]voteT{}, votes[:len(votes)-1]...), votes[0]), V, gpp, me, me, gblk)
 			for i := 1; i < len(votes); i++ {
 				for _, mode := range []string{"garbage", "empty"} {
 					vs := append([]voteT{}, votes...)
 					vs[i].S = signerT{ID: vs[i].S.ID, Mode: mode}
-					mk("vote-sig-"+mode, vs, V, ppA, me, me, blkA)
+					mk("vote-sig-"+mode, vs, V, gpp, me, me, gblk)
 				}
 				vs := append([]voteT{}, votes...)
 				vs[i].V = V + 1
-				mk("vote-other-view", vs, V, ppA, me, me, blkA)
+				mk("vote-other-view", vs, V, gpp, me, me, gblk)
 				vs = append([]voteT{}, votes...)
 				vs[i].H = H + 1
-				mk("vote-other-height", vs, V, ppA, me, me, blkA)
+				mk("vote-other-height", vs, V, gpp, me, me, gblk)
 				vs = append([]voteT{}, votes...)
 				vs[i].I = kit.Instance + 1
-				mk("vote-other-instance", vs, V, ppA, me, me, blkA)
+				mk("vote-other-instance", vs, V, gpp, me, me, gblk)
 				vs = append([]voteT{}, votes...)
 				vs[i].I = kit.Instance + 1
 				vs[i].S = signerT{ID: vs[i].S.ID, Mode: "valid"}
-				mk("vote-cross-instance-genuine", vs, V, ppA, me, me, blkA)
+				mk("vote-cross-instance-genuine", vs, V, gpp, me, me, gblk)
 			}
 			// a vote that declares another message type: the leader's own, genuinely signed as it stands; and a genuine
 			// PREPARE / COMMIT of a correct member for this very view in the place of its vote (same layout, signature verifies)
 			for _, ty := range []protocol.MessageType{protocol.LEAN_HELIX_PREPARE, protocol.LEAN_HELIX_COMMIT, protocol.LEAN_HELIX_PREPREPARE, protocol.LEAN_HELIX_NEW_VIEW} {
 				vs := append([]voteT{}, votes...)
 				vs[0].T = ty
-				mk("own-vote-other-type", vs, V, ppA, me, me, blkA)
+				mk("own-vote-other-type", vs, V, gpp, me, me, gblk)
 			}
 			for id := 0; id < e.nm; id++ {
 				m := e.msgs[id]
@@ -668,7 +676,7 @@ func (e *Engine) nvVariants(b primitives.MemberId, v uint64, proofs []proofSrc, 
 				for i := 1; i < len(votes); i++ {
 					vs := append([]voteT{}, votes...)
 					vs[i] = voteT{H: H, RawHdr: hdr, S: signerT{ID: primitives.MemberId(m.Info.Sender.ID), Mode: "replay", Sig: sig}}
-					mk("vote-replaced-by-genuine-"+m.Info.Kind, vs, V, ppA, me, me, blkA)
+					mk("vote-replaced-by-genuine-"+m.Info.Kind, vs, V, gpp, me, me, gblk)
 				}
 			}
 			// embedded PREPREPARE changed
@@ -751,8 +759,8 @@ func (e *Engine) nvVariants(b primitives.MemberId, v uint64, proofs []proofSrc, 
 			continue
 		}
 		base := proofT{Present: true,
-			PP: brefT{protocol.LEAN_HELIX_PREPREPARE, kit.Instance, H, primitives.View(ps.view), hexb(ps.hash)},
-			P:  brefT{protocol.LEAN_HELIX_PREPARE, kit.Instance, H, primitives.View(ps.view), hexb(ps.hash)},
+			PP:       brefT{protocol.LEAN_HELIX_PREPREPARE, kit.Instance, H, primitives.View(ps.view), hexb(ps.hash)},
+			P:        brefT{protocol.LEAN_HELIX_PREPARE, kit.Instance, H, primitives.View(ps.view), hexb(ps.hash)},
 			PPSender: signerT{ID: ps.ppm.Content().Sender().MemberId(), Mode: "replay", Sig: ps.ppm.Content().Sender().Signature()}}
 		for _, p := range ps.preps {
 			base.PSenders = append(base.PSenders, signerT{ID: p.Content().Sender().MemberId(), Mode: "replay", Sig: p.Content().Sender().Signature()})
@@ -862,6 +870,9 @@ func (e *Engine) Differential(K int, report map[string]bool) *DiffResult {
 					ap, ac, al := flags(n)
 					influenced := stored || len(n.Comm.Outs) > preOuts || n.V.S.HeightView().String() != preHV || pp != ap || pc != ac || pl != al || len(obs.Commits) > 0
 					viol := obs.Viol
+					if dbg := os.Getenv("PMC_DEBUG_PRIM"); dbg != "" && strings.Contains(m.Prim, dbg) {
+						fmt.Fprintf(os.Stderr, "DBG %s -> n%d@%s influenced=%v viol=%v :: %s\n", m.Prim, ls.Node, preHV, influenced, viol, m.Info.Desc())
+					}
 					if influenced {
 						atomic.AddInt64(&res.Influenced, 1)
 					}
@@ -899,7 +910,6 @@ func flags(n *LNode) (int64, bool, uint64) {
 	}
 	return -2, false, 0
 }
-
 
 // AlphabetSample renders a few mutants (for evidence).
 func (e *Engine) AlphabetSample() []string {
